@@ -99,7 +99,7 @@ Definition sbase_of (t : tagfacts) : str := if tf_resolved t then tf_sbase t els
 (* HedTag.__str__ = short_tag *)
 Definition tstr (t : tagfacts) : str :=
   if tf_resolved t then tag_namespace (tf_org t) ++ tf_sbase t ++ ext_tail t else tf_org t.
-(* HedTag.__eq__ (as repaired: case-folded short forms) *)
+(* HedTag.__eq__ (as repaired by fix commit 2492808: case-folded short forms) *)
 Definition tag_eqb (a b : tagfacts) : bool := str_eqb (tf_short_fold a) (tf_short_fold b).
 (* HedTag.is_basic_tag *)
 Definition is_basic (t : tagfacts) : bool :=
@@ -173,7 +173,7 @@ Definition report_char (c : N) : issue :=
 Definition check_chars (cfg : config) (s : str) : list issue :=
   flat_map (fun c => if char_invalid cfg c then [report_char c] else []) s.
 
-(* StringValidator.check_count_tag_group_parentheses (as repaired) *)
+(* StringValidator.check_count_tag_group_parentheses (as repaired by fix commit 5df7886) *)
 Definition check_parens (s : str) : list issue :=
   if paren_mismatch s then [iss K_PARENTHESES_MISMATCH] else [].
 
@@ -445,7 +445,7 @@ Fixpoint canon (n : fnode) : str :=
 Definition resort (l : list fnode) : list fnode :=
   map snd (sort_key (map (fun n => (canon n, n)) l)).
 
-(* HedGroup._sorted (as repaired): tags sorted by str and then (stably) by case-folded text, then groups
+(* HedGroup._sorted (as repaired by fix commit 7597eca): tags sorted by str and then (stably) by case-folded text, then groups
    sorted by the str of the group as written and then (stably) by the canonical text of the sorted group *)
 Fixpoint sorted_n (n : fnode) : fnode :=
   match n with
@@ -456,16 +456,40 @@ Fixpoint sorted_n (n : fnode) : fnode :=
       FGroup (resort (map snd (sort_key tags)) ++ resort (map snd (sort_key grps)))
   end.
 
-(* `while isinstance(found_group, list): found_group = found_group[0]` : IndexError on an empty list *)
+(* GroupValidator._check_for_duplicate_groups_recursive on a sorted view (as repaired by fix commit 3e47c8c:
+   `while isinstance(found_group, list) and found_group: found_group = found_group[0]`; when the walk ends in an
+   empty list the issue is formatted with GroupValidator._sorted_text(child) -- the check never raises) *)
+Fixpoint dup_n (n : fnode) : res (list issue) :=
+  match n with
+  | FTag _ => Ok []
+  | FGroup ch =>
+      (fix go (prev : option fnode) (l : list fnode) : res (list issue) :=
+         match l with
+         | [] => Ok []
+         | c :: l' =>
+             let same := match prev with Some p => node_eqb c p | None => false end in
+             let* here := (if same then
+                             match c with
+                             | FTag _ => Ok [iss K_HED_TAG_REPEATED]
+                             | FGroup _ => Ok [iss K_HED_TAG_REPEATED_GROUP]
+                             end
+                           else Ok []) in
+             let* inner := dup_n c in
+             let* rest := go (Some c) l' in
+             Ok (here ++ inner ++ rest)
+         end) None ch
+  end.
+
+(* RECORD of the repaired defect -- behaviour BEFORE fix commit 3e47c8c:
+   `while isinstance(found_group, list): found_group = found_group[0]` raised IndexError when the repeated group
+   held nothing but empty groups.  Not used by [validate]; kept for the regression Example in Props/C01.v. *)
 Fixpoint first_leaf_ok (n : fnode) : bool :=
   match n with
   | FTag _ => true
   | FGroup [] => false
   | FGroup (c :: _) => first_leaf_ok c
   end.
-
-(* GroupValidator._check_for_duplicate_groups_recursive on a sorted view *)
-Fixpoint dup_n (n : fnode) : res (list issue) :=
+Fixpoint dup_n_before_3e47c8c (n : fnode) : res (list issue) :=
   match n with
   | FTag _ => Ok []
   | FGroup ch =>
@@ -481,7 +505,7 @@ Fixpoint dup_n (n : fnode) : res (list issue) :=
                                            else Exn IndexError
                              end
                            else Ok []) in
-             let* inner := dup_n c in
+             let* inner := dup_n_before_3e47c8c c in
              let* rest := go (Some c) l' in
              Ok (here ++ inner ++ rest)
          end) None ch
